@@ -266,7 +266,9 @@ fn place_history(ctx: &mut Ctx, schema_src: &str, steps: usize) {
     use apollo_compiler::schema::{Component, FieldDefinition, InputValueDefinition};
     use apollo_compiler::{Name, Node};
     let Ok(parsed) = Schema::parse(schema_src, "s.graphql") else { ctx.stat("generated_schema_build_error"); return };
+    let refd0 = referenced_builtins(&parsed);
     let Ok(valid) = parsed.validate() else { ctx.stat("generated_schema_invalid"); return };
+    if present_builtins(&valid) != refd0 { ctx.fail("builtin-scalars-not-exact", schema_src, &format!("validate() keeps the built-in scalars {:?}, the schema references {refd0:?}", present_builtins(&valid))); }
     let mut cur = valid.into_inner();
     let mut log: Vec<String> = vec![];
     for step in 0..steps {
@@ -279,8 +281,34 @@ fn place_history(ctx: &mut Ctx, schema_src: &str, steps: usize) {
         let ifaces: Vec<Name> = cur.types.iter().filter(|(_, t)| matches!(t, ExtendedType::Interface(_))).map(|(n, _)| n.clone()).collect();
         let objects: Vec<Name> = cur.types.iter().filter(|(n, t)| matches!(t, ExtendedType::Object(_)) && !n.starts_with("__")).map(|(n, _)| n.clone()).collect();
         let inputs: Vec<Name> = cur.types.iter().filter(|(_, t)| matches!(t, ExtendedType::InputObject(_))).map(|(n, _)| n.clone()).collect();
-        let place = ctx.rng.below(5);
+        let place = ctx.rng.below(6);
         match place {
+            5 if !ifaces.is_empty() => {
+                // a nullable argument on a field that an interface declares: the interface and every (transitive) implementer get it
+                let target = ctx.rng.pick(&ifaces).clone();
+                let Some(ExtendedType::Interface(it)) = cur.types.get(&target) else { continue };
+                let Some(field) = it.fields.keys().next().cloned() else { continue };
+                let mut set = vec![target.clone()];
+                loop {
+                    let mut grew = false;
+                    for (n, t) in cur.types.iter() {
+                        let imps: Vec<&Name> = match t { ExtendedType::Object(o) => o.implements_interfaces.iter().map(|c| &c.name).collect(), ExtendedType::Interface(i) => i.implements_interfaces.iter().map(|c| &c.name).collect(), _ => vec![] };
+                        if !set.contains(n) && imps.iter().any(|i| set.contains(i)) { set.push(n.clone()); grew = true; }
+                    }
+                    if !grew { break; }
+                }
+                let ty = wrap_ty(b, if w % 2 == 1 { w - 1 } else { w });
+                let mut touched = 0;
+                for n in &set {
+                    let f = match cur.types.get_mut(n) {
+                        Some(ExtendedType::Object(o)) => o.make_mut().fields.get_mut(&field),
+                        Some(ExtendedType::Interface(i)) => i.make_mut().fields.get_mut(&field),
+                        _ => None,
+                    };
+                    if let Some(f) = f { f.make_mut().arguments.push(ivd(ty.clone())); touched += 1; }
+                }
+                log.push(format!("add argument {fname}: {ty} to {target}.{field} and to the same field of {} implementers", touched - 1));
+            }
             0 if !ifaces.is_empty() => {
                 // the interface and everything that (transitively) implements it
                 let target = ctx.rng.pick(&ifaces).clone();
@@ -341,7 +369,7 @@ fn place_history(ctx: &mut Ctx, schema_src: &str, steps: usize) {
         match cur.clone().validate() {
             Err(e) => {
                 if fresh_ok { ctx.fail("validation-after-adding-field-fails", &desc, e.errors.to_string().lines().next().unwrap_or("")); }
-                else { ctx.stat("place_history_edit_invalid_either_way"); }
+                else { ctx.stat("place_history_edit_invalid_either_way"); if std::env::var("C16_DEBUG").is_ok() { eprintln!("EITHER {desc} :: {}", e.errors.to_string().lines().next().unwrap_or("")); } }
                 return;
             }
             Ok(v) => {
@@ -351,6 +379,9 @@ fn place_history(ctx: &mut Ctx, schema_src: &str, steps: usize) {
                 let removed: Vec<_> = before.difference(&after).cloned().collect();
                 let want: Vec<String> = if before.contains(b) { vec![] } else { vec![b.to_string()] };
                 if added != want || !removed.is_empty() { ctx.fail("restore-not-exact", &desc, &format!("added {added:?}, removed {removed:?}, expected {want:?}")); }
+                // which built-in scalars are present: exactly the referenced ones (an extension of a scalar is not a reference)
+                let (got, refd) = (present_builtins(&v), referenced_builtins(&cur));
+                if got != refd { ctx.fail("builtin-scalars-not-exact", &desc, &format!("validate() keeps the built-in scalars {got:?}, the schema references {refd:?}")); }
                 if !fresh_ok { ctx.fail("revalidation-accepts-what-a-fresh-build-rejects", &desc, "validate() of the edited schema is Ok, parse_and_validate of its own text is Err"); }
                 ctx.stat(&format!("place_history_place_{place}"));
                 ctx.nontrivial(&desc);
@@ -360,7 +391,134 @@ fn place_history(ctx: &mut Ctx, schema_src: &str, steps: usize) {
     }
 }
 
+/// the built-in scalars a schema references (GraphQL §3.5: "all referenced built-in scalars must be included; if a built-in
+/// scalar type is not referenced anywhere in a schema then it must not be included"), read off the schema as parsed:
+/// field types, argument types, input field types, directive argument types — built-in definitions included
+fn referenced_builtins(s: &Schema) -> Vec<String> {
+    let mut out: std::collections::BTreeSet<String> = Default::default();
+    for t in s.types.values() { for r in refs_of(t) { if BUILTINS.contains(&r.as_str()) { out.insert(r); } } }
+    for d in s.directive_definitions.values() { for a in &d.arguments { let r = a.ty.inner_named_type().to_string(); if BUILTINS.contains(&r.as_str()) { out.insert(r); } } }
+    out.into_iter().collect()
+}
+
+fn present_builtins(s: &Schema) -> Vec<String> {
+    let mut v: Vec<String> = keys(s).into_iter().filter(|k| BUILTINS.contains(&k.as_str())).collect();
+    v.sort();
+    v
+}
+
+/// A built-in scalar referenced at exactly ONE place of the schema, for every place the language has and every
+/// wrapping: the first validation keeps exactly the referenced scalars, re-validation leaves the schema identical,
+/// and adding two fields of two other (pruned) scalars at once restores exactly those two.
+fn only_place_family(ctx: &mut Ctx) {
+    let wraps: [fn(&str) -> String; 5] = [|b| b.to_string(), |b| format!("{b}!"), |b| format!("[{b}]"), |b| format!("[{b}!]!"), |b| format!("[[{b}]]")];
+    let places: [fn(&str) -> String; 12] = [
+        |w| format!("type Query {{ q: Boolean }} interface Lone {{ x: {w} }}"),
+        |w| format!("type Query {{ q: Boolean }} interface Lone {{ y(x: {w}): Boolean }} directive @ds on SCALAR extend scalar Int @ds extend scalar Float @ds"),
+        |w| format!("type Query {{ q: Boolean x: {w} }}"),
+        |w| format!("interface I {{ x: {w} }} type Query implements I {{ q: Boolean x: {w} }}"),
+        |w| format!("type Query {{ q(x: {w}): Boolean }}"),
+        |w| format!("interface I {{ q(x: {w}): Boolean }} type Query implements I {{ q(x: {w}): Boolean }}"),
+        |w| format!("input In {{ x: {w} }} type Query {{ q(i: In): Boolean }}"),
+        |w| format!("directive @dd(x: {w}) on FIELD type Query {{ q: Boolean }}"),
+        |w| format!("type Query {{ q: Boolean }} extend type Query {{ x: {w} }}"),
+        |w| format!("interface I {{ x: {w} }} interface J implements I {{ x: {w} }} type Query implements J & I {{ q: Boolean x: {w} }}"),
+        |w| format!("type Query {{ q: Boolean }} type Unreachable {{ x: {w} }}"),
+        |w| format!("schema {{ query: Q mutation: M }} type Q {{ q: Boolean }} type M {{ m(x: {w}): Boolean }} type Query {{ unused: Boolean }}"),
+    ];
+    for (pi, place) in places.iter().enumerate() {
+        for b in BUILTINS {
+            for (wi, wrap) in wraps.iter().enumerate() {
+                if !ctx.thorough && wi >= 2 && (pi + wi) % 3 != 0 { continue; }
+                let src = place(&wrap(b));
+                let Ok(parsed) = Schema::parse(src.clone(), "s.graphql") else { ctx.fail("generator-schema-build-error", &src, ""); continue };
+                let want = referenced_builtins(&parsed);
+                let exported = export(&parsed);
+                let valid = match parsed.clone().validate() { Ok(v) => v, Err(e) => { ctx.fail("generator-schema-invalid", &src, e.errors.to_string().lines().next().unwrap_or("")); continue } };
+                ctx.stat("family_only_place");
+                ctx.case("scalars", &[enc(&exported)], &canon(&parsed, &valid));
+                let got = present_builtins(&valid);
+                if got != want { ctx.fail("builtin-scalars-not-exact", &src, &format!("validate() keeps the built-in scalars {got:?}, the schema references {want:?}")); }
+                let inner = valid.clone().into_inner();
+                match inner.clone().validate() {
+                    Err(_) => ctx.fail("revalidation-fails", &src, "a valid schema no longer validates after into_inner()"),
+                    Ok(v2) => {
+                        ctx.case("scalars", &[enc(&export(&inner))], &canon(&inner, &v2));
+                        if keys(&v2) != keys(&valid) || *v2 != *valid || dump(&v2) != dump(&valid) { ctx.fail("revalidation-changes-schema", &src, &format!("types {:?} -> {:?}", keys(&valid), keys(&v2))); }
+                    }
+                }
+                // two pruned scalars come back at once, each through another place
+                let missing: Vec<&str> = BUILTINS.iter().copied().filter(|x| !want.iter().any(|w| w == x)).collect();
+                if missing.len() >= 2 {
+                    let mut cur = valid.into_inner();
+                    let root = cur.schema_definition.query.as_ref().map(|q| q.name.clone());
+                    let Some(ExtendedType::Object(q)) = root.and_then(|r| cur.types.get_mut(&r)) else { continue };
+                    let q = q.make_mut();
+                    let n1 = apollo_compiler::Name::new("extra1").unwrap();
+                    let n2 = apollo_compiler::Name::new("extra2").unwrap();
+                    let arg = apollo_compiler::Node::new(apollo_compiler::schema::InputValueDefinition { description: None, name: n2.clone(), ty: apollo_compiler::Node::new(wrap_ty(missing[1], 2)), default_value: None, directives: Default::default() });
+                    q.fields.insert(n1.clone(), apollo_compiler::schema::Component::new(apollo_compiler::schema::FieldDefinition { description: None, name: n1, arguments: vec![arg], ty: wrap_ty(missing[0], wi % 4), directives: Default::default() }));
+                    let desc = format!("{src} ## history: validate; into_inner; add extra1(extra2: [{}]): {} to the query root; validate", missing[1], wrap_ty(missing[0], wi % 4));
+                    let exported3 = export(&cur);
+                    match cur.clone().validate() {
+                        Err(e) => ctx.fail("validation-after-adding-field-fails", &desc, e.errors.to_string().lines().next().unwrap_or("")),
+                        Ok(v3) => {
+                            ctx.case("scalars", &[enc(&exported3)], &canon(&cur, &v3));
+                            let mut want3: Vec<String> = want.iter().cloned().chain(missing[..2].iter().map(|s| s.to_string())).collect();
+                            want3.sort();
+                            let got3 = present_builtins(&v3);
+                            if got3 != want3 { ctx.fail("restore-not-exact", &desc, &format!("built-in scalars {got3:?}, expected {want3:?}")); }
+                            ctx.nontrivial(&desc);
+                        }
+                    }
+                }
+            }
+        }
+    }
+}
+
+/// Re-validation of valid executable documents: real documents (variables, fragments, directives, several
+/// operations), against the schema, against the same schema after `into_inner().validate()`, twice.
+fn executable_family(ctx: &mut Ctx) {
+    use crate::p20;
+    let n = if ctx.thorough { 6_000 } else { 600 };
+    let mut worlds = vec![];
+    for src in [p20::SCHEMA_A, p20::SCHEMA_C] {
+        let Ok(s) = Schema::parse_and_validate(src, "s.graphql") else { ctx.fail("generator-schema-invalid", src, ""); return };
+        let Ok(s2) = s.clone().into_inner().validate() else { ctx.fail("revalidation-fails", src, "test schema"); return };
+        worlds.push((s, s2));
+    }
+    for i in 0..n {
+        let defs = p20::gen_doc(&mut ctx.rng, i % 8 != 7);
+        let text = p20::doc_text(&defs);
+        let text1 = text.replace('\n', " ");
+        for (s, s2) in &worlds {
+            match catch(|| ExecutableDocument::parse_and_validate(s, text.clone(), "d.graphql")) {
+                Err(p) => ctx.fail("validation-panic", &text1, &p),
+                Ok(Err(_)) => ctx.stat("executable_family_invalid_document"),
+                Ok(Ok(doc)) => {
+                    ctx.stat("executable_revalidations");
+                    if defs.len() > 1 { ctx.stat("executable_revalidations_several_definitions"); }
+                    for (which, schema) in [("the same schema", s), ("the re-validated schema", s2)] {
+                        match catch(|| doc.clone().into_inner().validate(schema)) {
+                            Err(p) => ctx.fail("validation-panic", &text1, &p),
+                            Ok(Err(e)) => ctx.fail("executable-revalidation-fails", &text1, &format!("valid document, validated again against {which}: {:?}", error_list(&e.errors).iter().take(2).collect::<Vec<_>>())),
+                            Ok(Ok(d2)) => {
+                                if *d2 != *doc || d2.to_string() != doc.to_string() { ctx.fail("executable-revalidation-differs", &text1, which); }
+                                // and once more
+                                if d2.into_inner().validate(schema).is_err() { ctx.fail("executable-revalidation-fails", &text1, &format!("third validation against {which}")); }
+                            }
+                        }
+                    }
+                    ctx.nontrivial(&text1);
+                }
+            }
+        }
+    }
+}
+
 pub fn run(ctx: &mut Ctx) {
+    only_place_family(ctx);
     {
         let n = if ctx.thorough { 12_000 } else { 1_500 };
         for _ in 0..n {
@@ -368,8 +526,16 @@ pub fn run(ctx: &mut Ctx) {
             let used: Vec<&str> = BUILTINS.iter().copied().filter(|_| ctx.rng.chance(1, 3)).collect();
             let u = |r: &mut Rng, used: &Vec<&str>| -> String { if used.is_empty() { "Other".to_string() } else { r.pick(used).to_string() } };
             let (t0, t1, t2, t3) = (u(&mut ctx.rng, &used), u(&mut ctx.rng, &used), u(&mut ctx.rng, &used), u(&mut ctx.rng, &used));
-            let src = format!("type Query implements Named {{ name: {t0} q(a: {t3}): Other }} interface Named {{ name: {t0} }} interface Deep implements Named {{ name: {t0} d: {t1} }} type Other implements Deep & Named {{ name: {t0} d: {t1} }} type Third implements Named {{ name: {t0} }} input In {{ s: {t2} }} directive @dd(a: {t2}) on FIELD | OBJECT");
+            let mut src = format!("type Query implements Named {{ name: {t0} q(a: {t3}): Other }} interface Named {{ name: {t0} }} interface Deep implements Named {{ name: {t0} d: {t1} }} type Other implements Deep & Named {{ name: {t0} d: {t1} }} type Third implements Named {{ name: {t0} }} input In {{ s: {t2} }} directive @dd(a: {t2}) on FIELD | OBJECT");
             let steps = 1 + ctx.rng.below(4);
+            // every fourth schema extends a built-in scalar (used or not) with a directive: a pruned scalar loses it with its definition
+            if ctx.rng.chance(1, 4) {
+                let x = *ctx.rng.pick(&BUILTINS);
+                // (the argument's type is another scalar: `@ds(n: X)` on `X` itself would be a directive cycle)
+                let others: Vec<&str> = BUILTINS.iter().copied().filter(|b| *b != x).collect();
+                src.push_str(&format!(" directive @ds(n: {}) repeatable on SCALAR extend scalar {x} @ds @ds(n: null)", ctx.rng.pick(&others)));
+                ctx.stat("place_history_schema_extends_builtin_scalar");
+            }
             place_history(ctx, &src, steps);
         }
     }
@@ -399,4 +565,5 @@ pub fn run(ctx: &mut Ctx) {
         let adds: Vec<&str> = (0..k).map(|_| *ctx.rng.pick(&BUILTINS)).collect();
         history(ctx, &src, &adds);
     }
+    executable_family(ctx);
 }
